@@ -105,6 +105,11 @@ def stepwise(r, w, mode):
     for s in step_names(r):
         v = getattr(r, "read_" + s)()
         wr = getattr(w, "write_" + s)
+        if mode == "fortran":
+            # every multi-dimensional array handed to the writer is Fortran-ordered (a layout numpy users produce with .T / order="F")
+            v = [relayout(x) for x in v] if isinstance(v, types.GeneratorType) else relayout(v)
+            wr(v)
+            continue
         if isinstance(v, types.GeneratorType):
             if mode == "list":
                 wr(list(v))
@@ -220,6 +225,39 @@ def run_sm(mod, proto, role, seq, k):
             out.append("throw:" + type(e).__name__)
             break
     return out
+
+
+def relayout(x, depth=0):
+    """returns x with every ndarray of >= 2 dimensions replaced by a Fortran-ordered copy (same values, same shape)"""
+    import numpy as np
+    if depth > 8:
+        return x
+    if isinstance(x, np.ndarray):
+        if x.dtype == object:
+            out = np.empty(x.shape, dtype=object)
+            for idx in np.ndindex(x.shape):
+                out[idx] = relayout(x[idx], depth + 1)
+            return np.asfortranarray(out) if x.ndim >= 2 else out
+        return np.asfortranarray(x) if x.ndim >= 2 else x
+    if isinstance(x, list):
+        return [relayout(y, depth + 1) for y in x]
+    if isinstance(x, tuple):
+        return tuple(relayout(y, depth + 1) for y in x)
+    if isinstance(x, dict):
+        return {k: relayout(y, depth + 1) for k, y in x.items()}
+    if hasattr(x, "__dict__") and not isinstance(x, type) and type(x).__module__.split(".")[-1] in ("types",):
+        for k, y in list(vars(x).items()):
+            try:
+                setattr(x, k, relayout(y, depth + 1))
+            except Exception:
+                pass
+        return x
+    if hasattr(x, "value") and type(x).__name__.endswith("UnionCase") is False and hasattr(type(x), "index") and hasattr(type(x), "tag"):
+        try:
+            return type(x)(relayout(x.value, depth + 1))
+        except Exception:
+            return x
+    return x
 
 
 def main():
